@@ -456,3 +456,16 @@ func allValuesOf(v ssa.Value, isMap func(ssa.Value) bool) bool {
 	mv := stdCall(ir.Strip(seq), "maps", "Values")
 	return mv != nil && len(mv.Call.Args) == 1 && isMap(mv.Call.Args[0])
 }
+
+// recvAndArgs splits a call into its receiver and remaining arguments
+// (interface and static method calls alike).
+func recvAndArgs(call ssa.Instruction) (ssa.Value, []ssa.Value) {
+	cc := ir.CallOf(call)
+	if cc.IsInvoke() {
+		return cc.Value, cc.Args
+	}
+	if len(cc.Args) == 0 {
+		return nil, nil
+	}
+	return cc.Args[0], cc.Args[1:]
+}
